@@ -87,7 +87,10 @@ type c04State struct {
 	nUTXO   int
 	kinds   []string
 	sigs    int
-	copyVia int
+	copyVia int                // 0 std bytes, 1 extended bytes, 2 Clone, 3 the draft object itself
+	engine  interpreter.Engine // non-nil: one engine value re-used for every verification of the run
+	simple  *unlocker.Simple   // non-nil: one unlocker object re-keyed for every signature of the run
+	getter  *unlocker.Getter   // non-nil: one library getter re-keyed per locking script (wallet style)
 }
 
 var c04Flags = []byte{0x41, 0x42, 0x43, 0xc1, 0xc2, 0xc3, 0x01, 0x02, 0x03, 0x81, 0x82, 0x83}
@@ -221,7 +224,11 @@ func (s *c04State) verify(tx *bt.Tx, i int, value uint64, script []byte, flag by
 	}
 	var err error
 	s.c.Exec()
-	if pn := catch(func() { err = interpreter.NewEngine().Execute(opts...) }); pn != "" {
+	eng := s.engine
+	if eng == nil {
+		eng = interpreter.NewEngine()
+	}
+	if pn := catch(func() { err = eng.Execute(opts...) }); pn != "" {
 		return false, "panic: " + pn
 	}
 	if err != nil {
@@ -248,7 +255,11 @@ func (s *c04State) checkAll(after string) {
 		u := md.utxo
 		now := models.Projection(m, i, md.flag, u.value, u.script)
 		want := bytes.Equal(now, md.proj)
-		got, why := s.verify(s.verifierCopy(), i, u.value, u.script, md.flag)
+		vtx := s.tx // copyVia 3: the verifier is handed the very object the parties work on (true spent output only)
+		if s.copyVia != 3 {
+			vtx = s.verifierCopy()
+		}
+		got, why := s.verify(vtx, i, u.value, u.script, md.flag)
 		site := flagName(md.flag)
 		if got && !want {
 			c.Fail("accepts-changed-commitment", site, "after %s: input %d signed with %s is still accepted although something it commits to changed (history %v)", after, i, flagName(md.flag), s.kinds)
@@ -304,6 +315,15 @@ func (g *c04Getter) Unlocker(ctx context.Context, ls *bscript.Script) (bt.Unlock
 	for _, p := range g.s.parties {
 		if ls != nil && len(*ls) >= 23 && bytes.Equal((*ls)[3:23], p.h160) {
 			var u bt.Unlocker = &unlocker.Simple{PrivateKey: p.key}
+			if g.s.getter != nil {
+				// wallet style: one library Getter, re-keyed for the owner of each locking script
+				g.s.getter.PrivateKey = p.key
+				lu, err := g.s.getter.Unlocker(ctx, ls)
+				if err != nil {
+					return nil, err
+				}
+				u = lu
+			}
 			if g.failAt != nil {
 				u = &failingUnlocker{inner: u, failAt: g.failAt, cancel: g.cancel, viaCtx: g.viaCtx}
 			}
@@ -333,7 +353,16 @@ func (w *c04World) Run(c *kernel.RunCtx) {
 		p.h160 = crypto.Hash160(p.pub)
 		s.parties = append(s.parties, p)
 	}
-	s.copyVia = c.Choose(3)
+	s.copyVia = c.Choose(4)
+	if c.Bool(1, 2) {
+		s.engine = interpreter.NewEngine()
+		c.Count("probe.engine_reused_across_verifications", 1)
+	}
+	if c.Bool(1, 2) {
+		s.simple = &unlocker.Simple{}
+		s.getter = &unlocker.Getter{}
+		c.Count("probe.unlocker_objects_reused", 1)
+	}
 	s.tx.Version = []uint32{1, 2, uint32(c.U64n(1 << 32))}[c.Pick(4, 2, 1)]
 	if c.Bool(1, 3) {
 		s.tx.LockTime = uint32(c.U64n(1 << 32))
@@ -458,18 +487,23 @@ func (w *c04World) event(s *c04State, kind int) string {
 		c.Exec()
 		var pn string
 		direct := c.Bool(1, 3)
+		ul := &unlocker.Simple{PrivateKey: p.key}
+		if s.simple != nil {
+			ul = s.simple // one unlocker object for the whole run, pointed at the signing party's key
+			ul.PrivateKey = p.key
+		}
 		s.libCall("FillInput", func() {
 			pn = catch(func() {
 				if direct {
 					// the unlocker used directly (as the repository's examples do), then installed on the input
 					var us *bscript.Script
-					us, err = (&unlocker.Simple{PrivateKey: p.key}).UnlockingScript(context.Background(), tx, bt.UnlockerParams{InputIdx: uint32(i), SigHashFlags: sighash.Flag(flag)})
+					us, err = ul.UnlockingScript(context.Background(), tx, bt.UnlockerParams{InputIdx: uint32(i), SigHashFlags: sighash.Flag(flag)})
 					if err == nil {
 						err = tx.InsertInputUnlockingScript(uint32(i), us)
 					}
 					return
 				}
-				err = tx.FillInput(context.Background(), &unlocker.Simple{PrivateKey: p.key}, bt.UnlockerParams{InputIdx: uint32(i), SigHashFlags: sighash.Flag(flag)})
+				err = tx.FillInput(context.Background(), ul, bt.UnlockerParams{InputIdx: uint32(i), SigHashFlags: sighash.Flag(flag)})
 			})
 		})
 		name := fmt.Sprintf("Sign(%d,%s)", i, flagName(flag))
@@ -749,6 +783,7 @@ func c04SignedProgram(c *kernel.RunCtx) *program {
 	c.Begin("signed-program")
 	defer c.End()
 	s := &c04State{c: c, tx: bt.NewTx()}
+	s.tx.Version = []uint32{1, 2, 0x7fffffff}[c.Pick(3, 2, 1)]
 	kb := c.Bytes(32)
 	kb[0] = kb[0]&0x7f | 1
 	priv, pub := bec.PrivKeyFromBytes(bec.S256(), kb)
@@ -783,6 +818,36 @@ func c04SignedProgram(c *kernel.RunCtx) *program {
 		if c.Bool(1, 3) {
 			pr.flags |= parseFlags(f)
 		}
+	}
+	return pr
+}
+
+// fixedSpend builds a deterministic library-signed P2PKH spend (used as a canary by C18-B).
+func fixedSpend(flag byte, version uint32, nin, nout, idx int) *program {
+	kb := make([]byte, 32)
+	for i := range kb {
+		kb[i] = byte(17*i + 3)
+	}
+	priv, pub := bec.PrivKeyFromBytes(bec.S256(), kb)
+	h := crypto.Hash160(pub.SerialiseCompressed())
+	tx := bt.NewTx()
+	tx.Version = version
+	lock := p2pkh(h)
+	for i := 0; i < nin; i++ {
+		id := make([]byte, 32)
+		id[0], id[31] = byte(i+1), 0x77
+		_ = tx.FromUTXOs(&bt.UTXO{TxID: id, Vout: uint32(i), Satoshis: 5000, LockingScript: scriptPtr(lock)})
+	}
+	for i := 0; i < nout; i++ {
+		tx.AddOutput(&bt.Output{Satoshis: 1000, LockingScript: scriptPtr(lock)})
+	}
+	if err := tx.FillInput(context.Background(), &unlocker.Simple{PrivateKey: priv}, bt.UnlockerParams{InputIdx: uint32(idx), SigHashFlags: sighash.Flag(flag)}); err != nil {
+		panic("harness: canary cannot be signed: " + err.Error())
+	}
+	pr := &program{unlock: append([]byte(nil), *tx.Inputs[idx].UnlockingScript...), lock: lock, amount: 5000, txBytes: tx.ExtendedBytes(), inIdx: idx, src: "canary-signed " + flagName(flag)}
+	pr.flags = parseFlags("UTXO_AFTER_GENESIS")
+	if flag&0x40 != 0 {
+		pr.flags = parseFlags("UTXO_AFTER_GENESIS,SIGHASH_FORKID")
 	}
 	return pr
 }
